@@ -5,6 +5,16 @@ confirmation data comes from /tmp/mut/results/<Cxx>_<n>.confirm.json (tools/conf
 import json, os, shutil, sys
 
 NEEDS = {
+    "C01-1": "TCP, more than 4096 segments backlogged on one session and the reading application stalled > 2 s with the receive queue full: the bounded wait returns false, which in the TCP branch means 'skip delivery'",
+    "C01-2": "a single Write of more than 32768 bytes whose length is not divisible by ceil(len/32768): the remainder bytes are never queued, Write returns len(b), nil",
+    "C02-1": "no loss: the receiving application does not read until the backlog reaches 4096 segments, the window closes exactly with nothing in flight (slow small-message sender), then the reader resumes: the window-reopening ack has the same ack number and is ignored (<= instead of <)",
+    "C02-2": "a duplicate of the open session response (seq 0, a sessionStruct) reaching the client after the original was processed: it bypasses the new data-only duplicate filter and blocks recvBuf for ever (two cooperating sites)",
+    "C10-1": "two registered users on UDP; user B's datagram carrying the id of user A's brand-new session dispatched before that session's input goroutine has set the user name (owner check simplified to UserName() only)",
+    "C10-2": "a SOCKS5 request or UDP-associate header with ATYP=0x03 and domain length 0 (05 01 00 03 00 00 01): the new trailing-dot stripping indexes b[len(b)-1]",
+    "C13-1": "a second copy of the server's open session response (seq 0) reaching the client: nextRecv is bumped, the client acknowledges a sequence number it has not received and later discards the real segment as stale (two cooperating sites)",
+    "C13-2": "interleaving: Close() reads nextSend while oLock is held by the output loop and a concurrent Write() gets the lock first: a data fragment and the close request carry the same sequence number",
+    "C15-1": "TCP peer that stopped reading until the client writer is blocked inside the socket, then client Stop: StreamUnderlay.Close sets only the read deadline, the blocked conn.Write keeps oLock for ever",
+    "C15-2": "a TCP write failing (reset, or client Stop mid-transfer with two sessions on one underlay) before anyone else has closed that session: runOutputOnceStream calls closeWithError while still holding oLock (defer) and self-deadlocks",
     "C03-1": "UDP client session, first write > 1024 bytes (or low entropy on) so data does not ride on the open request, Close() within the first round trip before the open response arrives; no loss involved",
     "C03-2": "TCP, slow reader with >= 4353 unread segments (receive queue 4096 + 1 held + channel 256) at the instant the close request reaches the receiver; nothing lost on the wire",
     "C05-1": "a copy of a genuine first TCP segment that ends inside its suffix padding (>= 1 padding byte, not all) followed by a stall or half-close",
